@@ -28,7 +28,7 @@ def gen_snetop(rng, nnodes):
     if rng.random() < 0.14:
         # delay settings change in the middle of a script, in both orders (set_delay after set_delays and back)
         if rng.random() < 0.5:
-            return "DELAY %d" % f64_bits(rng.choice([0.0, 0.5, 1.0, 2.0, 5.0]))
+            return "DELAY %d" % f64_bits(rng.choice([0.0, 0.5, 1.0, 2.0, 5.0, 0.01, 7.3, 123.456]))
         return "DELAYS %d %d" % (f64_bits(rng.choice([0.0, 0.5, 1.0])), f64_bits(rng.choice([1.0, 2.0, 3.5])))
     r = rng.random()
     if r < 0.12:
@@ -150,11 +150,72 @@ def gen_timer_scenario(rng, sid, seed=None):
     return ("SIM", sid, lines), feat, seed
 
 
+
+def gen_crash_scenario(rng, sid, seed=None):
+    """crash-heavy scripts: chatty processes on 2-3 nodes, long random delays (messages stay in flight), sometimes
+    duplication; nodes are crashed with messages in flight in both directions, recovered (processes re-added) and
+    crashed again before the old messages would have arrived; partial stepping in between"""
+    nnodes = rng.choice([2, 3])
+    nprocs = nnodes
+    seed = seed if seed is not None else rng.randrange(1, 1 << 20)
+    feat = {"timers": True, "override": False, "clock": False, "rand_progs": False, "drop": 0.0,
+            "dupl": rng.choice([0.0, 0.0, 1.0, 0.5]), "corrupt": 0.0, "rand_delay": True, "crash": True, "netops": False,
+            "skew": False, "links": False, "crash_stress": True}
+    lines = ["SEED %d" % seed]
+    for p in range(nprocs):
+        others = [q for q in range(nprocs) if q != p]
+        lines.append("PROG %d %d 0 0 2" % (p, rng.choice([4, 6])))
+        for _ in range(2):
+            acts = ["S %d %s" % (rng.choice(others), gen_mc.gen_msg(rng)) for _ in range(rng.choice([1, 2]))]
+            if rng.random() < 0.5:
+                acts.append("T %d %d 1" % (rng.randrange(2), f64_bits(rng.choice([0.5, 2.0, 6.0]))))
+            lines.append("ROW %d %d %s" % (p, len(acts), " ".join(acts)))
+    lines.append("DRAWS")
+    for n in range(nnodes):
+        lines.append("OP ADDNODE %d" % n)
+    for p in range(nprocs):
+        lines.append("OP ADDPROC %d %d" % (p, p))
+    lines.append("OP NET DELAYS %d %d" % (f64_bits(rng.choice([1.0, 2.0])), f64_bits(rng.choice([5.0, 8.0]))))
+    if feat["dupl"]:
+        lines.append("OP NET DUPLRATE %d" % f64_bits(feat["dupl"]))
+    crashed = set()
+    for _ in range(rng.randint(10, 22)):
+        r = rng.random()
+        live = [p for p in range(nprocs) if p not in crashed]
+        if r < 0.35 and live:
+            lines.append("OP LOCAL %d %s" % (rng.choice(live), gen_mc.gen_msg(rng)))
+        elif r < 0.5:
+            lines.append("OP STEP")
+        elif r < 0.58:
+            lines.append("OP DURATION %d" % f64_bits(rng.choice([0.25, 0.5, 1.0])))
+        elif r < 0.8:
+            if crashed and rng.random() < 0.6:
+                nd = rng.choice(sorted(crashed))
+                crashed.discard(nd)
+                lines.append("OP RECOVER %d" % nd)
+                lines.append("OP ADDPROC %d %d" % (nd, nd))
+            else:
+                cand = [n for n in range(nnodes) if n not in crashed]
+                if cand:
+                    nd = rng.choice(cand)
+                    crashed.add(nd)
+                    lines.append("OP CRASH %d" % nd)
+        else:
+            lines.append("OP STEPS %d" % rng.choice([1, 2]))
+    lines.append("OP UNTILNOEVENTS")
+    for p in range(nprocs):
+        if p not in crashed:
+            lines.append("OP READ %d" % p)
+    return ("SIM", sid, lines), feat, seed
+
+
 def gen_scenario(rng, sid, feat=None, nops=None, seed=None):
     if feat is None and rng.random() < 0.2:
         return gen_link_scenario(rng, sid, seed)
     if feat is None and rng.random() < 0.18:
         return gen_timer_scenario(rng, sid, seed)
+    if feat is None and rng.random() < 0.15:
+        return gen_crash_scenario(rng, sid, seed)
     feat = feat or gen_features(rng)
     nnodes = rng.choice([1, 2, 2, 3])
     nprocs = rng.choice([2, 2, 3])
@@ -185,7 +246,8 @@ def gen_scenario(rng, sid, feat=None, nops=None, seed=None):
     if feat["rand_delay"]:
         lines.append("OP NET DELAYS %d %d" % (f64_bits(rng.choice([0.0, 0.5, 1.0])), f64_bits(rng.choice([1.0, 2.0, 3.5]))))
     elif rng.random() < 0.5:
-        lines.append("OP NET DELAY %d" % f64_bits(rng.choice([0.0, 0.5, 1.0, 2.0])))
+        # fixed delays include values that are not rounding-friendly: a fixed delay must be reproduced exactly
+        lines.append("OP NET DELAY %d" % f64_bits(rng.choice([0.0, 0.5, 1.0, 2.0, 0.01, 7.3, 123.456])))
     if feat["drop"]:
         lines.append("OP NET DROPRATE %d" % f64_bits(feat["drop"]))
     if feat["dupl"]:
